@@ -2121,10 +2121,23 @@ func (s *ImmuStore) DiscardPrecommittedTxsSince(txID uint64) (int, error) {
 	if txID-1 == s.committedTxID {
 		s.inmemPrecommittedTxID = s.committedTxID
 		s.inmemPrecommittedAlh = s.committedAlh
+
+		// following transactions are written over the discarded ones, otherwise
+		// the discarded ones would be the first to be found in the tx log, and
+		// reloaded, when the store is opened again
+		if s.committedTxID == 0 {
+			s.precommittedTxLogSize = 0
+		} else {
+			txOff, txSize, err := s.txOffsetAndSize(s.committedTxID)
+			if err == nil {
+				s.precommittedTxLogSize = txOff + int64(txSize)
+			}
+		}
+
 		return txsToDiscard, nil
 	}
 
-	tx, alh, _, _, err := s.cLogBuf.readAhead(int(s.inmemPrecommittedTxID-s.committedTxID-1) - txsToDiscard)
+	tx, alh, txOff, txSize, err := s.cLogBuf.readAhead(int(s.inmemPrecommittedTxID-s.committedTxID-1) - txsToDiscard)
 	if err != nil || tx != txID-1 {
 		s.inmemPrecommittedTxID = s.committedTxID
 		s.inmemPrecommittedAlh = s.committedAlh
@@ -2134,6 +2147,7 @@ func (s *ImmuStore) DiscardPrecommittedTxsSince(txID uint64) (int, error) {
 
 	s.inmemPrecommittedTxID = txID - 1
 	s.inmemPrecommittedAlh = alh
+	s.precommittedTxLogSize = txOff + int64(txSize)
 
 	return txsToDiscard, nil
 }
